@@ -327,8 +327,8 @@ def monitor_transitions(w: World) -> tuple[str, Any] | None:
             continue
         if new in table.get(old, set()):
             continue
-        if ctx in REARM_CTX and row["tbl"] in ("stage", "task"):
-            continue
+        if ctx in REARM_CTX and row["tbl"] in ("stage", "task") and new == "NOT_STARTED":
+            continue  # the explicit re-arm; anything else a jump writes has to be a legal transition
         return ("illegal_transition/%s/%s->%s@%s" % (row["tbl"], old, new, ctx or "outside"), row)
     return None
 
@@ -1648,4 +1648,103 @@ def cancel_crash_run(workload: str, j_sym: Any, k_sym: Any, max_k: int = 14) -> 
                 return True
             finally:
                 HOOKS.on_commit = None
+                w.close()
+
+
+# ----------------------------------------------------------------------------------------------- statement-level handler race
+def handler_stmt_race_run(prop: str, workload: str, j_sym: Any, k_sym: Any, pick_sym: Any, monitors: tuple[str, ...] = ("C02", "C06"),
+                          compare: str = "reference", max_k: int = 90) -> bool:
+    """Two workers, one pre-emption, every pair of handlers the run offers: the handler of the j-th
+    delivered message (worker A) is stopped just before its k-th SQL statement and another
+    deliverable message (the pick-th of those visible at that instant) is handled completely by
+    worker B; then A continues with whatever it had read before.  Real SQLite file; a position
+    inside A's open write transaction is not enabled (B would wait for the commit) and slips to the
+    next statement outside one.  j, k and the pick are symbolic."""
+    with hx.Path("handler_stmt_race:%s:%s" % (prop, workload)) as P:
+        with hx.native():
+            w = World()
+            try:
+                wf = WORKLOADS[workload]()
+                spec = spec_of(wf)
+                w.submit(wf)
+                state: dict[str, Any] = {"n": 0, "armed": False, "done": False, "at": None, "sql": None, "b": None, "a": None}
+
+                def visible() -> list[dict[str, Any]]:
+                    now = stubs.CLOCK.peek_ms()
+                    vis = [r for r in w.rows() if r["attempts"] < w.queue_max_attempts and r["deliver_ms"] // 1000 <= now // 1000
+                           and (r["lock_ms"] is None or r["lock_ms"] // 1000 < now // 1000)]
+                    vis.sort(key=lambda r: (r["deliver_at"], r["id"]))
+                    return vis
+
+                def hook(conn: Any, sql: str) -> None:
+                    if state["done"] or not w._in_deliver:
+                        return  # only the handler proper is pre-empted (poll_one / ack races are C08's)
+                    state["n"] += 1
+                    if not state["armed"] and state["n"] <= max_k and hx.decide_eq(k_sym, state["n"]):
+                        state["armed"] = True
+                    if state["armed"] and not conn.in_transaction and sql not in ("COMMIT", "ROLLBACK"):
+                        vis = visible()
+                        if not vis:
+                            return  # nothing another worker could take right now: try the next position
+                        state["done"] = True
+                        state["at"] = state["n"]
+                        state["sql"] = " ".join(sql.split()[:4])
+                        row = vis[hx.pick(pick_sym, min(len(vis), 3))]
+                        state["b"] = row["message_type"]
+                        saved = (HOOKS.ctx, HOOKS.handler_base, w._in_deliver, HOOKS.on_statement)
+                        HOOKS.on_statement = None
+                        try:
+                            w.deliver(row["id"])
+                        finally:
+                            HOOKS.ctx, HOOKS.handler_base, w._in_deliver, HOOKS.on_statement = saved
+
+                step = 0
+                raced_at = None
+                while step < MAX_STEPS:
+                    if not w.make_visible():
+                        break
+                    vis = visible()
+                    if not vis:
+                        break
+                    if raced_at is None and hx.decide_eq(j_sym, step):
+                        raced_at = step
+                        state["a"] = vis[0]["message_type"]
+                        HOOKS.on_statement = hook
+                        try:
+                            w.deliver(vis[0]["id"])
+                        finally:
+                            HOOKS.on_statement = None
+                    else:
+                        w.deliver(vis[0]["id"])
+                    step += 1
+                w.processor._check_dlq()
+                snap = w.snapshot()
+                summ = summarize(snap)
+                if raced_at is None or state["at"] is None:
+                    return True
+                what = "%s_inside_%s" % (state["b"], state["a"])
+                P.reached("%s step %d stmt %d" % (what, raced_at, state["at"]), {"workload": workload, "A": state["a"], "B": state["b"], "step": raced_at, "statement": state["at"], "sql": state["sql"]})
+                info = {"workload": workload, "worker_A_handles": state["a"], "worker_B_handles": state["b"], "at_step": raced_at, "before_statement": state["at"], "sql": state["sql"],
+                        "final": summ["stages"], "workflow": summ["workflow"], "errors": w.handler_errors[:3]}
+                if step >= MAX_STEPS:
+                    return P.fail("%s/handler_race/%s/%s/no_termination" % (prop, workload, what), info)
+                for m in monitors:
+                    bad = MONITORS[m](w, spec)
+                    if bad is not None:
+                        return P.fail("%s/handler_race/%s/%s/%s" % (prop, workload, what, bad[0]), {**info, "detail": bad[1]})
+                q = quiescent_ok(snap)
+                if q is not None:
+                    return P.fail("%s/handler_race/%s/%s/not_quiescent/%s" % (prop, workload, what, state_sig(summ)), {**info, "why": q})
+                if compare != "none":
+                    ref = reference(workload)
+                    rs = ref["summary"]
+                    if summ["workflow"] != rs["workflow"] or (compare in ("reference", "counts", "stages") and summ["stages"] != rs["stages"]):
+                        return P.fail("%s/handler_race/%s/%s/outcome_differs/%s" % (prop, workload, what, state_sig(summ)), {**info, "expected": rs["stages"]})
+                    if compare in ("reference", "counts"):
+                        a_, b_ = Counter((r, t) for r, t, _ in _ledger_view(w)), Counter((r, t) for r, t, _ in ref["ledger"])
+                        if a_ != b_:
+                            return P.fail("%s/handler_race/%s/%s/executions_differ" % (prop, workload, what), {**info, "extra": sorted((a_ - b_).elements())[:4], "missing": sorted((b_ - a_).elements())[:4]})
+                return True
+            finally:
+                HOOKS.on_statement = None
                 w.close()
